@@ -198,6 +198,12 @@ def _limit_mem():
     resource.setrlimit(resource.RLIMIT_AS, (MEM_LIMIT_BYTES, MEM_LIMIT_BYTES))
 
 
+def _limit_mem_heavy():
+    import resource
+    lim = int(os.environ.get('VERIF_KANI_MEM_HEAVY_GB', '48')) * (1 << 30)
+    resource.setrlimit(resource.RLIMIT_AS, (lim, lim))
+
+
 def run_harnesses(names, tier='quick', jobs=None):
     """run the named harnesses; returns list of result dicts"""
     table = harness_table()
@@ -216,6 +222,13 @@ def run_harnesses(names, tier='quick', jobs=None):
             if os.path.exists(out_json):
                 os.remove(out_json)
             njobs = jobs or (12 if crate == 'trippy-packet' else 2)
+            # heavy harnesses (whole receive / dispatch paths over 1 KiB buffers) need 10-40 GB each: run them one at
+            # a time with a larger address-space limit instead of two side by side (62 GB machine, no swap)
+            import props as _P
+            heavy = [h for h in hs if h in _P.HEAVY_HARNESSES]
+            if heavy and not jobs:
+                njobs = 1
+            limit_fn = _limit_mem_heavy if heavy else _limit_mem
             cmd = ['cargo', 'kani', '-p', crate, '-Z', 'function-contracts', '-Z', 'stubbing', '-Z', 'unstable-options',
                    '--output-format', 'terse', '-j', str(njobs), '--harness-timeout', '%ds' % tmax,
                    '--export-json', out_json, '--target-dir', TARGET]
@@ -224,7 +237,7 @@ def run_harnesses(names, tier='quick', jobs=None):
             t0 = time.time()
             try:
                 p = subprocess.run(cmd, cwd=WS, env=_env(), stdout=subprocess.PIPE, stderr=subprocess.STDOUT, text=True,
-                                   timeout=tmax * (1 + len(hs) // njobs) + 1200, preexec_fn=_limit_mem)
+                                   timeout=tmax * (1 + len(hs) // njobs) + 1200, preexec_fn=limit_fn)
                 out = p.stdout
             except subprocess.TimeoutExpired as e:
                 out = (e.stdout or b'').decode() if isinstance(e.stdout, bytes) else (e.stdout or '')
